@@ -168,12 +168,13 @@ func Main() {
 		return
 	}
 	id := os.Args[1]
+	// the tier named on the command line wins; VERIF_TIER is only the default
 	tier := "quick"
-	if len(os.Args) > 2 {
-		tier = os.Args[2]
-	}
 	if t := os.Getenv("VERIF_TIER"); t == "quick" || t == "thorough" {
 		tier = t
+	}
+	if len(os.Args) > 2 && (os.Args[2] == "quick" || os.Args[2] == "thorough") {
+		tier = os.Args[2]
 	}
 	os.Exit(parentMain(id, tier))
 }
